@@ -166,7 +166,7 @@ def dist_equal(a, b):
 def reads(obj, kind, first=None):
     """every kind of read; `first` chooses which read is done before any other on a never-read object"""
     out = {}
-    order = ["sample_N_outputs", "distribution", "sample", "sample_N_inputs"]
+    order = ["sample_N_outputs", "distribution", "sample", "sample_N_inputs", "sample_N_outputs_filtered", "sample_N_inputs_filtered"]
     if first:
         order.remove(first)
         order.insert(0, first)
@@ -178,6 +178,11 @@ def reads(obj, kind, first=None):
                 out[r] = dict(obj.sample_N_outputs(200, seed=5))
             elif r == "sample_N_inputs" and kind == "sampler":
                 out[r] = dict(obj.sample_N_inputs(200, seed=7))
+            elif r == "sample_N_outputs_filtered" and kind == "sampler":
+                # sampling calls with their own acceptance criteria (they reject part of the distribution for this call only)
+                out[r] = dict(obj.sample_N_outputs(100, seed=5, post_select=lambda s_: s_[0] == 0, min_detection=1))
+            elif r == "sample_N_inputs_filtered" and kind == "sampler":
+                out[r] = dict(obj.sample_N_inputs(100, seed=7, post_select=lambda s_: s_[0] == 0, min_detection=1))
             elif r == "sample":
                 import random
                 random.seed(3)
@@ -251,7 +256,17 @@ def _run_history(kind, steps, first_read):
                 reads(live, kind)
     a = reads(live, kind, first_read)
     b = reads(fresh(cfg, kind), kind, first_read)
-    return compare_reads(a, b, cfg.valid)
+    m = compare_reads(a, b, cfg.valid)
+    if m is None and cfg.valid:
+        # after all those reads (sampling calls with their own acceptance criteria included) the distribution is still the one a never-used
+        # object reports
+        try:
+            m = dist_equal(dict(live.probability_distribution), dict(fresh(cfg, kind).probability_distribution))
+        except Exception as e:  # noqa: BLE001
+            m = f"reading the distribution after the sampling calls raised {type(e).__name__}: {e}"
+        if m:
+            m = f"distribution after sampling calls vs a never-used object: {m}"
+    return m
 
 
 def histories(tier, kind):
